@@ -97,15 +97,42 @@ def canonical_dump(scfg, tags=None):
     return "\n".join(entry_to_str(e) for e in export_entries(scfg, top, tags))
 
 
-def mk_scfg(succ, names=None, payload="basic"):
+def dfs_backedges(succ):
+    """Arcs of `succ` (index lists) that close a cycle in a depth-first walk from node 0 (and from
+    every node not reached so far): the arcs a user of the YAML/dict front end would declare."""
+    n, state, out = len(succ), {}, set()
+    for root in range(n):
+        if root in state:
+            continue
+        stack = [(root, iter(succ[root]))]
+        state[root] = 1
+        while stack:
+            v, it = stack[-1]
+            for w in it:
+                if state.get(w) == 1:
+                    out.add((v, w))
+                elif w not in state:
+                    state[w] = 1
+                    stack.append((w, iter(succ[w])))
+                    break
+            else:
+                state[v] = 2
+                stack.pop()
+    return out
+
+
+def mk_scfg(succ, names=None, payload="basic", declare_backedges=False):
     """Flat SCFG from successor index lists; `payload="bytecode"` makes every block a
-    PythonBytecodeBlock with a distinct [begin, end) range (C05: payload untouched)."""
+    PythonBytecodeBlock with a distinct [begin, end) range (C05: payload untouched);
+    `declare_backedges` declares the depth-first back arcs, as the YAML/dict front end allows."""
     names = names or [str(i) for i in range(len(succ))]
+    be = dfs_backedges(succ) if declare_backedges else set()
     g = {}
     for i, ss in enumerate(succ):
+        kw = {"backedges": tuple(dict.fromkeys(names[s] for s in ss if (i, s) in be))}
         if payload == "bytecode":
             g[names[i]] = bb.PythonBytecodeBlock(name=names[i], _jump_targets=tuple(names[s] for s in ss),
-                                                begin=10 * i, end=10 * i + 8)
+                                                begin=10 * i, end=10 * i + 8, **kw)
         else:
-            g[names[i]] = bb.BasicBlock(name=names[i], _jump_targets=tuple(names[s] for s in ss))
+            g[names[i]] = bb.BasicBlock(name=names[i], _jump_targets=tuple(names[s] for s in ss), **kw)
     return SCFG(g)
